@@ -157,6 +157,8 @@ def _sqrt(x):
         return fp64.FPNum(z3.fpSqrt(fp64.RNE, x.z))
     if _symbolic(x):
         return core.sym_sqrt(x)
+    if EXACT_CONCRETE_SQRT[0] and core.ENG is not None and isinstance(x, (int, _real_float, Fraction)) and x >= 0:
+        return core.sym_sqrt(x, force_atom=True)
     return _M['sqrt'](x)
 
 
@@ -379,6 +381,7 @@ def hash_shim(obj):
     return h
 
 
+EXACT_CONCRETE_SQRT = [False]   # measure families: math.sqrt of a concrete non-square rational stays an exact atom
 ROUND_EXACT = [False]      # C19 switches the exact decimal rounding model on
 
 
